@@ -29,7 +29,16 @@ func vScenarioC14(rc *runCtx) {
 	for i := 0; i < cfg.relays; i++ {
 		cfg.relayTmux = append(cfg.relayTmux, []string{"", "normal", "control"}[tp.Pick("c14.rtmux", 3, 2, 1)])
 	}
+	// Windows newline: a server that frames its lines with "!\n", or a client on Windows, without a tunnel
+	// (Windows-framed server + tunnel is the known C01 finding)
 	cfg.cliWindows, cfg.srvWindows = false, false
+	if !cfg.tunnel {
+		cfg.srvWindows = tp.Bool("c14.winsrv", 200)
+		cfg.cliWindows = !cfg.srvWindows && tp.Bool("c14.wincli", 100)
+		if cfg.srvWindows {
+			cfg.srvTmux = ""
+		}
+	}
 	cfg.fork = false
 	cfg.timeout = []int{5, 20}[tp.Draw("c14.timeout", 2)]
 	cfg.trigVersion = ""
@@ -246,7 +255,14 @@ func vScenarioC14(rc *runCtx) {
 		return
 	}
 	// 5. the next transfer through the same relays works
-	cfg2 := *&cfg
+	cfg2 := *cfg
+	if !cfg.tunnel {
+		// the next server need not be of the same kind as the previous one
+		cfg2.srvWindows = tp.Bool("c14.winsrv2", 200)
+		if cfg2.srvWindows {
+			cfg2.srvTmux = ""
+		}
+	}
 	dst2 := filepath.Join(rc.dir, "dst2")
 	os.MkdirAll(dst2, 0755)
 	o2 := cfg2.opts()
